@@ -2,7 +2,9 @@
 (include/stdarg.h: __va_arg_mem/__va_arg_gp/__va_arg_fp). clang cannot type-check these functions
 (they do integer arithmetic on `void *`, which chibicc accepts), so they are parsed here: declarations
 with initialiser, if/else, assignment and op=, return, calls between the header's functions; pointers
-are integers, `->` reads/writes a field of a dict. Anything else raises NotInSubset (-> undecided)."""
+are integers, `->` reads/writes a field of a dict. Anything else raises NotInSubset (-> undecided).
+The parser keeps the tokens of every type name it skips (4th element of 'decl', 3rd of 'cast'): Eval ignores them, the typed
+evaluator of sa/lib_c16.py (C16 R16.8) gives declarations and casts their C meaning."""
 import re
 
 
